@@ -359,67 +359,8 @@ fn all_lists() -> Vec<Vec<u8>> {
     out
 }
 
-/// Family M: the store file was written by the releases that used redb 2.x (variable-width tuples
-/// carry another type tag there; `Store::persistent` converts such a file when it opens it). The
-/// file is written here with redb 3 and the legacy tuple types, the way the crate's own migration
-/// test does it, with `n` registered peers for the document: after opening, the list must be the
-/// one that was stored.
 fn old_format_store(n_peers: u8) -> Vec<(&'static str, String)> {
-    use redb_v3::{Legacy, MultimapTableDefinition, TableDefinition};
-    type RecordsKey<'a> = (&'a [u8; 32], &'a [u8; 32], &'a [u8]);
-    type RecordsValue<'a> = (u64, &'a [u8; 64], &'a [u8; 64], u64, &'a [u8; 32]);
-    const RECORDS: TableDefinition<Legacy<RecordsKey>, RecordsValue> = TableDefinition::new("records-1");
-    const LATEST: TableDefinition<(&[u8; 32], &[u8; 32]), Legacy<(u64, &[u8])>> = TableDefinition::new("latest-by-author-1");
-    const BY_KEY: TableDefinition<Legacy<(&[u8; 32], &[u8], &[u8; 32])>, ()> = TableDefinition::new("records-by-key-1");
-    const NAMESPACES: TableDefinition<&[u8; 32], (u8, &[u8; 32])> = TableDefinition::new("namespaces-2");
-    const PEERS: MultimapTableDefinition<&[u8; 32], (u64, &[u8; 32])> = MultimapTableDefinition::new("sync-peers-1");
-    let mut bad = vec![];
-    let dir = scratch_dir();
-    let path = dir.path().join("docs.redb");
-    let ns = ns_id(0).to_bytes();
-    let e = crate::universe::Spec::new(0, 0, b"k", 1, crate::universe::Val::X).signed();
-    let res: anyhow::Result<()> = (|| {
-        let db = redb_v3::Database::create(&path)?;
-        let tx = db.begin_write()?;
-        {
-            let (kind, bytes) = Capability::Write(ns_secret(0)).raw();
-            tx.open_table(NAMESPACES)?.insert(&ns, (kind, &bytes))?;
-            let author = e.author().to_bytes();
-            let raw = crate::mirror::RawSigned::of(&e);
-            let (ns_sig, au_sig) = (raw.ns_sig, raw.author_sig);
-            tx.open_table(RECORDS)?.insert((&ns, &author, e.key()), (e.timestamp(), &ns_sig, &au_sig, e.content_len(), e.content_hash().as_bytes()))?;
-            tx.open_table(LATEST)?.insert((&ns, &author), (e.timestamp(), e.key()))?;
-            tx.open_table(BY_KEY)?.insert((&ns, e.key(), &author), ())?;
-            let mut peers = tx.open_multimap_table(PEERS)?;
-            for i in 0..n_peers {
-                peers.insert(&ns, (1_000 + i as u64, &peer(i)))?;
-            }
-        }
-        tx.commit()?;
-        Ok(())
-    })();
-    if let Err(e) = res {
-        return vec![("MACHINERY", format!("cannot write the old-format file: {e:#}"))];
-    }
-    for cycle in 1..=2 {
-        let mut sut = match Sut::persistent(&path) {
-            Ok(s) => s,
-            Err(e) => {
-                bad.push(("old_format_store_opens", format!("cycle {cycle}: {e:#}")));
-                break;
-            }
-        };
-        let got = get(&mut sut, &ns_id(0));
-        let want: Option<Vec<[u8; 32]>> = (n_peers > 0).then(|| (0..n_peers).rev().map(peer).collect());
-        if got != want {
-            bad.push(("list_survives_reopening", format!("a store file of the redb 2.x format with {n_peers} registered peers, opened (cycle {cycle}): get_sync_peers = {:?}, stored (most recent first) {:?}", got.map(|v| v.iter().map(|p| p[0]).collect::<Vec<_>>()), want.map(|v| v.iter().map(|p| p[0]).collect::<Vec<_>>()))));
-        }
-        if sut.dump(ns_id(0)) != vec![e.clone()] {
-            bad.push(("MACHINERY", format!("cycle {cycle}: the entry of the old-format file is not readable after the conversion")));
-        }
-        drop(sut);
-    }
-    bad
+    super::oldfmt::check(n_peers, "C17")
 }
 
 fn run(ctx: &Ctx, report: &mut Report) {
